@@ -107,7 +107,9 @@ class _Date:
         return _Date(self.off + d.n, self.ymd)
 
     def key(self):
-        return ("today%+d" % self.off) if self.ymd is None else self.ymd
+        if self.ymd is None:
+            return "today%+d" % self.off
+        return self.ymd if not (isinstance(self.ymd, str) and self.off) else "%s%+d" % (self.ymd, self.off)
 
 
 def _date_regex_literal(ctx):
@@ -186,7 +188,10 @@ def _parse_datetime_scenarios(ctx):
                 return (interp.V("LocalResult::Ambiguous", [dt, dict(dt)]),)
             if callee.endswith("Local::now") or callee.endswith("::now"):
                 return ({"__dt": ("today+0", 12, 30, 45), "__date": _Date()},)
-            if m == "date_naive" and isinstance(recv, dict):
+            if m in ("naive_utc",) and isinstance(recv, dict) and "__date" in recv:
+                # the UTC calendar day is another day than the local one for part of every day outside UTC
+                return ({"__dt": ("utc-day",) + tuple(recv["__dt"][1:]), "__date": _Date(ymd="utc-day")},)
+            if m in ("date", "date_naive") and isinstance(recv, dict) and ("__date" in recv or "__dt" in recv):
                 return (recv.get("__date", _Date(ymd=recv["__dt"][0])),)
             if m == "naive_local" and isinstance(recv, dict):
                 return (recv,)
@@ -215,7 +220,7 @@ def _parse_datetime_scenarios(ctx):
                 return (interp.V("Result::Err", [interp.Opaque("no date")]),)
             return None
         try:
-            v = interp.Interp(call=call, max_steps=40000).run(hir, {pid: text})
+            v = interp.Interp(call=call, max_steps=40000, prog=ctx.prog).run(hir, {pid: text})
         except interp.Undecided as e:
             out[text] = "undecided: %s" % e
             continue
@@ -333,6 +338,7 @@ RULES = [
     ("C13-R4", "panic sites of the date parser are guarded or reviewed [analysis P of C10]",
      lambda ctx: __import__("c10").r1(ctx, only=lambda s: s.fn.startswith("util::datetime::") or s.fn == "function::Variant::to_datetime", rule_prefix="date-")),
     ("X-DATEALIKE", "date look-ahead of the lexer (regex, year and month ranges)", lambda ctx: __import__("extra").looks_like_date_rule(ctx)),
+    ("X-OPERANDS", "each operand of a comparison is evaluated afresh (no memo shared between operands or conditions: a remembered value comes back as text) [shared]", lambda ctx: __import__("conf").operands_evaluated_afresh(ctx)),
 ]
 
 EXPLANATION = (
